@@ -97,7 +97,7 @@ func (m *c02Model) allowed(id *c02Identity, num int64, ts uint64) (bool, string)
 
 func TestC02_NeverEarly(t *testing.T) {
 	rec := recorder("C02")
-	rec.AddRule("rapid state machine over one Shutter-service keyper (verif-tagged constructor, real trigger decision code, real KeyShareHandler and service middleware behind the trigger channel, real schema on pgfake): 1-3 keyper sets (member / not member, distinct and equal activation blocks), eons {none, pending, failed, succeeded, failed-then-restarted pending|succeeded}, time-registered identities with release times at tau-1 / tau / tau+1 around the generated block times, event-trigger registrations with and without a fired_triggers row, decrypted flags; actions: new block (number, time; non-monotone times allowed), register identity, DKG event (eon row / dkg_result row appears), keys released (real keys handler -> decrypted flags), restart (new Keyper object on the same database). Oracle (safety): every identity of every trigger put on the channel while processing block (N, tau), and of every DecryptionKeyShares message handed to SendMessage, satisfies the statement's release condition in the model; identities of a trigger are strictly increasing; a share message names the keyper set the identity was registered for. non-trivial = a block whose time equals a pending release time, or processed while the identity's set has a failed/pending newest eon, or a restart between registration and release; distinct by history")
+	rec.AddRule("rapid state machine over one Shutter-service keyper (verif-tagged constructor, real trigger decision code, real KeyShareHandler and service middleware behind the trigger channel, real schema on pgfake): 1-3 keyper sets (member / not member, distinct and equal activation blocks), eons {none, pending, failed, succeeded, failed-then-restarted pending|succeeded}, time-registered identities with release times at tau-1 / tau / tau+1 around the generated block times, event-trigger registrations with and without a fired_triggers row, decrypted flags; actions: new block (number, time; non-monotone times allowed), register identity, DKG event (eon row / dkg_result row appears), keys released (real keys handler with the keys of 1-3 identities of one keyper set -> decrypted flags), restart (new Keyper object on the same database). Oracle (safety): every identity of every trigger put on the channel while processing block (N, tau), and of every DecryptionKeyShares message handed to SendMessage, satisfies the statement's release condition in the model; identities of a trigger are strictly increasing; a share message names the keyper set the identity was registered for. non-trivial = a block whose time equals a pending release time, or processed while the identity's set has a failed/pending newest eon, or a restart between registration and release; distinct by history")
 	rec.Assume("pgfake; fired_triggers rows are written by the harness only for logs within the trigger's lifetime (producing them from chain logs is C16's subject)")
 	ctx := context.Background()
 	runRapid(t, N(600, 8000), func(rt *rapid.T) {
@@ -326,13 +326,37 @@ func TestC02_NeverEarly(t *testing.T) {
 				}
 				sort.Slice(cands, func(i, j int) bool { return bytes.Compare(cands[i].Identity, cands[j].Identity) < 0 })
 				c := cands[rapid.IntRange(0, len(cands)-1).Draw(rt, "keysFor")]
-				msg := &p2pmsg.DecryptionKeys{InstanceId: simInstanceID, Eon: uint64(c.Cfg), Keys: []*p2pmsg.Key{{IdentityPreimage: c.Identity, Key: []byte{1}}}, Extra: &p2pmsg.DecryptionKeys_Service{Service: &p2pmsg.ShutterServiceDecryptionKeysExtra{}}}
+				// one keys message carries the keys of everything that was released together: up to
+				// three identities of the same keyper set (sorted, as in a trigger)
+				group := []*c02Identity{c}
+				for _, o := range cands {
+					if o != c && o.Cfg == c.Cfg && !bytes.Equal(o.Identity, c.Identity) && len(group) < 3 && rapid.Bool().Draw(rt, "keysAlso") {
+						group = append(group, o)
+					}
+				}
+				sort.Slice(group, func(i, j int) bool { return bytes.Compare(group[i].Identity, group[j].Identity) < 0 })
+				msg := &p2pmsg.DecryptionKeys{InstanceId: simInstanceID, Eon: uint64(c.Cfg), Extra: &p2pmsg.DecryptionKeys_Service{Service: &p2pmsg.ShutterServiceDecryptionKeysExtra{}}}
+				d := fmt.Sprintf("keys-released(cfg%d", c.Cfg)
+				for _, o := range group {
+					msg.Keys = append(msg.Keys, &p2pmsg.Key{IdentityPreimage: o.Identity, Key: []byte{1}})
+					d += fmt.Sprintf(" id%x", o.Identity[:2])
+				}
 				h := shutterservice.VerifNewHandlers(pool)[1]
 				if _, err := h.HandleMessage(ctx, msg); err != nil {
 					fatalf(rt, "keys-handling-error", "%v", err)
 				}
-				c.Decrypted = true
-				desc = append(desc, fmt.Sprintf("keys-released(cfg%d id%x)", c.Cfg, c.Identity[:2]))
+				for _, o := range group {
+					// (identities are unique per keyper set in the model: same bytes = same registration)
+					for _, x := range model.IDs {
+						if x.Cfg == o.Cfg && bytes.Equal(x.Identity, o.Identity) {
+							x.Decrypted = true
+						}
+					}
+				}
+				if len(group) > 1 {
+					labels = append(labels, "keys-message-with-several-identities")
+				}
+				desc = append(desc, d+")")
 			case "restart":
 				kpr = newKeyper()
 				restartPending = true
